@@ -21,7 +21,7 @@ fn build(data: &[u8]) -> Option<Req> {
     }
     let sel = data[0];
     let mut d = &data[1..];
-    Some(match sel % 16 {
+    Some(match sel % 20 {
         0 => Req::new("tot.slices", vec![d.to_vec()]),
         1 => Req::new("ed.decompress", vec![take(&mut d, 32)]),
         2 => Req::new("rs.decompress", vec![take(&mut d, 32)]),
@@ -43,7 +43,7 @@ fn build(data: &[u8]) -> Option<Req> {
         9 => {
             let t = take(&mut d, 3);
             let raw = d[..d.len().min(70)].to_vec();
-            let (ty, fmt, shape) = (t[0] % 11, t[1] & 1, t[2] % 8);
+            let (ty, fmt, shape) = (t[0] % 11, t[1] & 1, t[2] % 12);
             if dalek_verif_harness::mops::serde_ops::expected_de(ty, fmt, shape, &raw).is_none() {
                 return None;
             }
@@ -54,7 +54,15 @@ fn build(data: &[u8]) -> Option<Req> {
         12 => Req::new("gp.from_repr", vec![take(&mut d, 32)]),
         13 => Req::new("sig.from_keypair", vec![take(&mut d, 64)]),
         14 => Req::new("mt.from_edwards", vec![take(&mut d, 32)]),
-        _ => Req::new("sc.hash_pass", vec![d.to_vec()]),
+        15 => Req::new("sc.hash_pass", vec![d.to_vec()]),
+        // hazmat::raw_verify with the pass-through context digest: the challenge is (R || A) mod l
+        16 => Req::new("tot.verify_chosen_k", vec![take(&mut d, 32), take(&mut d, 32), take(&mut d, 32), d.to_vec()]),
+        17 => Req::new("gp.rs_group", vec![take(&mut d, 64)]),
+        18 => {
+            let c = take(&mut d, 1);
+            Req::new("gp.point_extras", vec![take(&mut d, 32), take(&mut d, 32), c])
+        }
+        _ => Req::new("gp.from_uniform", vec![take(&mut d, 64)]),
     })
 }
 
